@@ -470,6 +470,15 @@ PROPS["C06"]["drivers"]["quick"] += [cl("c04", [], 2), cl("c02", ["--runs", "40"
 PROPS["C06"]["drivers"]["thorough"] += [cl("c04", ["--thorough", "--maxruns", "1500"], 3), cl("c02", ["--runs", "200", "--nmax", "12"], 3)]
 
 
+# long histories across the wrap-around of the u8 timer token at every epoch-starting site (going idle, reset, defunct):
+# overflow panics (C06), stale-versus-current epochs (C13, C11) and identity renewals many times over (C10)
+for _p, _mons in (("C06", None), ("C13", None), ("C10", None), ("C11", None)):
+    PROPS[_p]["drivers"]["quick"].append({"args": ["wrap", "--runs", "6", "--steps", "2500"], "shards": 1})
+    PROPS[_p]["drivers"]["thorough"].append({"args": ["wrap", "--runs", "12", "--steps", "2500"], "shards": 3})
+PROPS["C06"].setdefault("goals", {}).update({"cov_wrap_going_idle": {"quick": 1, "thorough": 1}, "cov_wrap_reset": {"quick": 1, "thorough": 1},
+                                             "cov_wrap_defunct": {"quick": 1, "thorough": 1}})
+
+
 # C05 on the specification: the exhaustive run of the partition/heal model (N=3) exceeds 1.5*10^7 states without
 # finishing, so it is explored with TLC's random walks (every walk: form, cut {0}|{1,2}, mutual Down, heal at one of
 # the instants of an announce period, converge); the level claimed stays "exploration"
